@@ -167,6 +167,15 @@ def lazy_cache(rel, cls, fn, attr):
     if len(ifs) != 1:
         raise Fail('expected exactly one if')
     body = ifs[0].body
+    # the early-return spelling:  if cls.A is not None: return cls.A ;  <build> ; cls.A = built ; return cls.A   - the build is what follows the if
+    i0 = ifs[0]
+    if len(i0.body) == 1 and isinstance(i0.body[0], ast.Return) and not i0.orelse and isinstance(i0.test, ast.Compare) and len(i0.test.ops) == 1 and \
+            isinstance(i0.test.ops[0], ast.IsNot) and isinstance(i0.test.comparators[0], ast.Constant) and i0.test.comparators[0].value is None and \
+            ast.unparse(i0.test.left) == 'cls.' + attr and ast.unparse(i0.body[0].value or ast.Constant(None)) == 'cls.' + attr:
+        rest = f.body[f.body.index(i0) + 1:]
+        if rest and isinstance(rest[-1], ast.Return):
+            rest = rest[:-1]
+        body = [x for x in rest if not (isinstance(x, ast.Expr) and isinstance(x.value, ast.Constant))]
 
     def is_store(t):
         return isinstance(t, ast.Attribute) and t.attr == attr and isinstance(t.value, ast.Name) and t.value.id == 'cls'
